@@ -34,6 +34,25 @@ CHECKS.update({
   note=SMC_NOTE, ref="DESIGN.md section 5 C18"),
 })
 
+CALLS_NOTE = ("Trusted: Coq kernel; real-number axioms + classic + functional_extensionality_dep where listed by Print Assumptions; tools/translate.py "
+              "(symbolic execution of the straight-line sampler methods with an object model of sample sets and abstract user callables) and its mpmath "
+              "IR evaluator, validated each run by a numeric differential against the running samplers; stub kernel packages; FakeFlow. "
+              "Reals extended with NaN/+-inf (Lib/XR.v) follow the IEEE rules for the special values but do not round.")
+CHECKS.update({
+ "C05": dict(technique="Coq proof over reals extended with NaN/-inf/+inf about the log_prob call sites regenerated from the three SMC adapters and the MCMC base class; numeric differential of every sampler class x preconditioning x namespace",
+  text="Theorems (for every user likelihood, prior, proposal density and every preconditioning inverse): the value handed to the kernel is, row by row, (1-b) log q + b (log L + log pi) + log|J| (b=1, no q for MCMC); a zero-prior point gets -inf, never a finite number; the SMC value is never NaN (NaN -> -inf); the BlackJAX adapter computes the same row function. The run-time differential drives the real log_prob of 5 sampler classes under 8 (+flow) preconditioning configurations and cross-checks the transform's reported log-Jacobian by finite differences.",
+  note=CALLS_NOTE + " That the reported log-Jacobian is the true one is property C04.", ref="DESIGN.md section 5 C05"),
+ "C09": dict(technique="Coq proof about the probability vector (translated kernel: softmax of incremental weights) and about the rows of the resampled population (translated constructor call, struct-of-arrays select); spy generator with scripted index vectors on the implementation",
+  text="Theorems: the vector handed to the generator is exp((b'-b)(logL+logpi-logq)) normalised, sums to 1, is positive; for ANY index vector every output row is an exact copy of one source row (coordinates and all three log-densities from the same index); size = requested, temperature = b'. The check hands resample() a spy generator and compares rows exactly in three namespaces and two widths.",
+  note=CALLS_NOTE + " numpy's Generator.choice is trusted to draw index i with probability p[i].", ref="DESIGN.md section 5 C09"),
+ "C10": dict(technique="Coq proof: coherence (stored densities = user functions at the stored coordinates) of the translated mutation / importance call sites, preserved by selection and resampling, lifted to every stored population and checkpoint by an invariant theorem over the SMC loop model; hand model of the initial-draw loop compared row by row (vm_compute)",
+  text="Theorems: mutate (both kernels) and the importance sampler return coordinates with their own q, prior and likelihood; resampling/selection preserve that; any population invariant preserved by resampling and mutation holds for the final samples, every stored population and every checkpoint payload of every run (induction over the loop); the initial population has exactly n rows, finite priors, and each row keeps the proposal density drawn with it. The search recomputes the user functions on every stored row of whole runs of all five samplers.",
+  note=CALLS_NOTE, ref="DESIGN.md section 5 C10"),
+ "C17": dict(technique="Coq proof about the user-callable invocation lists regenerated from every translated call site (prior evaluated first, likelihood receives exactly that log-prior, counter += points); run-time audit of every likelihood call in whole runs",
+  text="Theorems, for every translated call site (SMC/BlackJAX/MCMC kernel targets, post-mutation re-evaluation in both kernels, importance sampling, convert_to_samples) and the initial draw: each likelihood call is preceded by a prior call on the same points, the samples it receives carry map Pi pts, and n_likelihood_evaluations grows by exactly the number of points. The audit wraps the user callables in whole runs of all samplers, including final enlargement and resumed runs.",
+  note=CALLS_NOTE + " Emcee.sample / MiniPCN.sample epilogues are covered by the run-time audit only.", ref="DESIGN.md section 5 C17"),
+})
+
 PENDING_REASON = "check not built yet in this round (planned: DESIGN.md section 5); no claim is made"
 
 
